@@ -274,12 +274,13 @@ def values_close(a, b):
 
 def same_type(t1, t2):
     if (t1 or {}).get("t") == "generic" and (t2 or {}).get("t") == "generic":
+        if (t1.get("inner") or {}).get("t") in ("open", "dim_open") and (t2.get("inner") or {}).get("t") in ("open", "dim_open"):
+            # value types like `forall A: Dim. A × Mass²` or `forall A B. A × B²` (products with polymorphic zeros)
+            # and `forall A: Dim. A` have the same instances; which one is printed depends on how the product
+            # associates
+            return True
         if t1["n"] != t2["n"]:
             return False
-        if t1["n"] == 1 and (t1.get("inner") or {}).get("t") in ("open", "dim_open") and (t2.get("inner") or {}).get("t") in ("open", "dim_open"):
-            # value types like `forall A: Dim. A × Mass²` (a polymorphic zero times a quantity) and `forall A: Dim. A`
-            # have the same instances; which one is printed depends on the association of the product
-            return True
         return norm_sup(t1["text"]) == norm_sup(t2["text"])
     return t1 == t2
 
